@@ -848,7 +848,7 @@ func runC14(c *Ctx) {
 		}
 		return 1
 	}
-	n := c.Budget(160, 6000)
+	n := c.Budget(160, 1500)
 	for k := 0; k < n; k++ {
 		// Go count
 		{
